@@ -15,6 +15,12 @@ rand = np.random.rand
 
 def _finite(result):
     """Excel has no infinity: a result beyond the largest number is #NUM!"""
+    try:
+        # (Exact intermediate results are converted here: an integer or a
+        # fraction beyond the largest double does not become `inf`.)
+        result = float(result)
+    except OverflowError:
+        raise xlerrors.NumExcelError('result is too large')
     if not np.isfinite(result):
         raise xlerrors.NumExcelError('result is too large')
     return result
@@ -154,7 +160,7 @@ def CEILING(
     # 6.999999999999999 and 3 * 0.1 is 0.30000000000000004.
     number = fractions.Fraction(str(number))
     significance = fractions.Fraction(str(significance))
-    return float(significance * math.ceil(number / significance))
+    return _finite(significance * math.ceil(number / significance))
 
 
 @xl.register()
@@ -291,7 +297,7 @@ def FLOOR(
     # 0.7 / 0.1 is 6.999999999999999 and 6 * 0.1 is 0.6000000000000001.
     number = fractions.Fraction(str(number))
     significance = fractions.Fraction(str(significance))
-    return float(significance * math.floor(number / significance))
+    return _finite(significance * math.floor(number / significance))
 
 
 @xl.register()
@@ -462,7 +468,7 @@ def _round(number, num_digits, _rounding=decimal.ROUND_HALF_UP):
         # The default 28 digits are not enough for ROUND(1E+30, 0).
         dc.prec = max(dc.prec, number.adjusted() + int(num_digits) + 2)
         ans = round(number, int(num_digits))
-    return float(ans)
+    return _finite(ans)
 
 
 @xl.register()
